@@ -29,6 +29,7 @@ type ownPod struct {
 	Term    bool
 	NoIdent bool // pod-name label missing
 	OtherNS bool // lives in another namespace (same name pattern, matching labels)
+	NewUID  bool // the API copy is a re-creation (other UID) that the cache has not seen yet
 }
 
 func (p ownPod) String() string {
@@ -52,6 +53,9 @@ func (p ownPod) String() string {
 	}
 	if p.OtherNS {
 		s += "/other-namespace"
+	}
+	if p.NewUID {
+		s += "/recreated-behind-cache"
 	}
 	return s
 }
@@ -203,6 +207,17 @@ func (c ownCase) Build(w *world.World) *world.State {
 	st.API.Sets["other"] = other
 	st.API.Sets["web"] = set
 	st.SyncCaches()
+	for i, pc := range c.Pods {
+		if pc.Present && pc.NewUID {
+			k := world.ObjKey(map[bool]string{true: "other", false: world.NS}[pc.OtherNS], podNameFor(pc.Shape, i))
+			if p := st.API.Pods[k]; p != nil {
+				n := p.DeepCopy()
+				n.UID = types.UID(string(p.UID) + "-recreated")
+				n.ResourceVersion = "2"
+				st.API.Pods[k] = n
+			}
+		}
+	}
 	switch c.API {
 	case "api-deleting":
 		a := set.DeepCopy()
@@ -237,6 +252,7 @@ func ownPodCells() []ownPod {
 					out = append(out, ownPod{Present: true, Owner: owner, Shape: shape, NoIdent: true})
 					if owner == "" || owner == "none" {
 						out = append(out, ownPod{Present: true, Owner: owner, Shape: shape, OtherNS: true})
+						out = append(out, ownPod{Present: true, Owner: owner, Shape: shape, NewUID: true})
 					}
 				}
 			}
@@ -340,7 +356,7 @@ func ownCheck(prop string, apis, policies []string, paused bool, differential bo
 	if prop == "C10" {
 		depth = 2
 	}
-	rep.Rule = fmt.Sprintf("ownership snapshot enumeration: set web (r=3, %v, RU p=0) plus a second set with the same selector; (P) pods at 3 ordinals, up to %d of them replaced by any cell of owner{this,none,other UID,other kind,non-controller ref} x labels{match,no match} x name{S-i,S-x,other-i,S-i-j} x terminating, also without the pod-name label and in another namespace, or absent; (R) full product of three revision slots (data T1=the set's template, T2, T3) each absent or owner{this,none,other UID,other kind} x labels{selector,upgrade marker,both}, x revisionHistoryLimit{0,1,10} x pod-label pinning (none / one live pod / one terminating pod at another revision / all pods at another revision) x revision numbering (descending with age / all equal / reversed, i.e. a rollback pending); x API copy of the set %v; paused=%v. One real reconcile per snapshot. %s Non-trivial = at least one write or an error.", policies, depth, apis, paused, ruleText)
+	rep.Rule = fmt.Sprintf("ownership snapshot enumeration: set web (r=3, %v, RU p=0) plus a second set with the same selector; (P) pods at 3 ordinals, up to %d of them replaced by any cell of owner{this,none,other UID,other kind,non-controller ref} x labels{match,no match} x name{S-i,S-x,other-i,S-i-j} x terminating, also without the pod-name label, in another namespace, and re-created behind the cache (API copy with another UID), or absent; (R) full product of three revision slots (data T1=the set's template, T2, T3) each absent or owner{this,none,other UID,other kind} x labels{selector,upgrade marker,both}, x revisionHistoryLimit{0,1,10} x pod-label pinning (none / one live pod / one terminating pod at another revision / all pods at another revision) x revision numbering (descending with age / all equal / reversed, i.e. a rollback pending); x API copy of the set %v; paused=%v. One real reconcile per snapshot. %s Non-trivial = at least one write or an error.", policies, depth, apis, paused, ruleText)
 	rep.Assumptions = apiAssumptions
 	deadline := explore.Deadline(100*time.Second, 15*time.Minute)
 	judge := monitorOf(prop)
